@@ -399,7 +399,7 @@ func c05HeaderMods() []c05Mod {
 	mode := func(m string) c05Mod {
 		return c05Mod{"header", "pckcrl-issuer-chain:" + m, false, func(s *world.Spec, _ *rand.Rand) { s.PckCrlHdrMode = m }}
 	}
-	return []c05Mod{mode("absent"), mode("two"), mode("wrongtype"), mode("empty"), mode("badescape"), mode("garbageder"),
+	return []c05Mod{mode("absent"), mode("two"), mode("novalues"), mode("nilvalues"), mode("wrongtype"), mode("empty"), mode("badescape"), mode("garbageder"),
 		{"header", "pckcrl-issuer-chain:one-block", false, func(s *world.Spec, _ *rand.Rand) { s.PckCrlHdrRoles = []string{"inter"} }},
 		{"header", "pckcrl-issuer-chain:swapped(root,inter)", false, func(s *world.Spec, _ *rand.Rand) { s.PckCrlHdrRoles = []string{"root", "inter"} }},
 	}
